@@ -12,12 +12,23 @@ def isLetter (c : Nat) : Bool := (65 ≤ c && c ≤ 90) || (97 ≤ c && c ≤ 12
 
 def upper (c : Nat) : Nat := if 97 ≤ c && c ≤ 122 then c - 32 else c
 
-/-- the loop of `ColumnToIndex`: `none` = the Go code returned -1 inside the loop -/
+/-- `maxColumnNumber` of xlsx/cell.go (`1 << 40`): the largest column number (1-indexed)
+`ColumnToIndex` converts -/
+def maxColumnNumber : Nat := 1099511627776
+
+/-- the loop of `ColumnToIndex`: `none` = the Go code returned -1 inside the loop — at a
+character that is no letter, or (since the fix "ColumnToIndex rejects column letters that
+overflow") as soon as the accumulated number exceeds `maxColumnNumber`.  The accumulator never
+exceeds `26 * maxColumnNumber + 26` before the test, so the Go `int` does not wrap and the
+natural number is exact. -/
 def colAcc : Str → Nat → Option Nat
   | [], acc => some acc
   | c :: cs, acc =>
     let u := upper c
-    if 65 ≤ u && u ≤ 90 then colAcc cs (acc * 26 + (u - 65) + 1) else none
+    if 65 ≤ u && u ≤ 90 then
+      (if acc * 26 + (u - 65) + 1 > maxColumnNumber then none
+       else colAcc cs (acc * 26 + (u - 65) + 1))
+    else none
 
 /-- `xlsx.ColumnToIndex` -/
 def columnToIndex (s : Str) : Int :=
